@@ -270,6 +270,12 @@ def reader_rules(ctx, R):
         consume += [x for x in cfgl.stmt_nodes() if isinstance(x.ast, ast.Delete) and any(
             isinstance(t, ast.Subscript) and isinstance(t.value, ast.Attribute) and mangle(R.cls.name, t.value.attr) == R.buffer_attr
             and isinstance(t.slice, ast.Slice) and t.slice.lower is None and t.slice.upper is not None for t in x.ast.targets)]
+        part = partition_idiom(ctx, R, lin)
+        if part is not None:
+            # head, sep, rest = buffer.partition(CRLF) ... buffer = rest
+            consume += [x for x in cfgl.stmt_nodes() if isinstance(x.ast, ast.Assign) and any(
+                isinstance(t, ast.Attribute) and mangle(R.cls.name, t.attr) == R.buffer_attr for t in x.ast.targets)
+                and isinstance(x.ast.value, ast.Name) and x.ast.value.id == part[3]]
         if not consume:
             raise AnalysisError("M4", "line reader: statement that removes the line from the buffer not recognised")
         bad = []
@@ -579,6 +585,45 @@ def check_split(ctx, R, lin):
                 if len(n.value.args) > 1:
                     ctx.violation("M4", lin, "delimiter-search-offset", "the delimiter search does not start at the beginning of the buffer",
                                   node=n)
+    if pos_var is None and partition_idiom(ctx, R, lin) is not None:
+        st, head, sep, rest = partition_idiom(ctx, R, lin)
+        cfgl = ctx.cfg(lin)
+        keeps = [x for x in cfgl.stmt_nodes() if isinstance(x.ast, ast.Assign) and any(is_buf(t) for t in x.ast.targets)
+                 and not is_buffer_reset(ctx, R, lin, x.ast) and not any(isinstance(y, ast.Call) and call_name(y) == "recv" for y in ast.walk(x.ast))
+                 and not (isinstance(x.ast.value, ast.BinOp) and is_buf(x.ast.value.left))]
+        found = lambda f_: (lambda e_, pol: (isinstance(e_, ast.Name) and e_.id == sep and pol) or (
+            isinstance(e_, ast.Compare) and len(e_.ops) == 1 and isinstance(e_.left, ast.Name) and e_.left.id == sep and (
+                (isinstance(e_.ops[0], ast.Eq) and pol and const_value(ctx.program, lin, e_.comparators[0]) == b"\r\n") or
+                (isinstance(e_.ops[0], ast.NotEq) and pol and const_value(ctx.program, lin, e_.comparators[0]) == b""))))(*fact_atom(f_))
+        okk = bool(keeps)
+        for x in keeps:
+            if not (isinstance(x.ast.value, ast.Name) and x.ast.value.id == rest):
+                ctx.violation("M4", lin, "rest-offset", "after a line is taken the buffer is set to %s, not to what follows the delimiter (%s)"
+                              % (norm(x.ast.value)[:40], rest), node=x.ast, witness="every following line starts with a stray byte or loses one")
+                okk = False
+            elif not cfgl.guarded(x, found, exc=True):
+                ctx.violation("M4", lin, "rest-unguarded", "the buffer is replaced by the part after the delimiter without testing that a delimiter "
+                              "was found (%s): an incomplete line is dropped from the buffer" % sep, node=x.ast,
+                              witness="`OK \"do` + `ne\"\\r\\n`: the first segment is thrown away")
+                okk = False
+        # the line handed back is the head
+        outs = [r_ for r_ in walk_no_nested(lin.node) if isinstance(r_, ast.Return) and r_.value is not None]
+        line_vars = {head}
+        for a_ in walk_no_nested(lin.node):
+            if isinstance(a_, ast.Assign) and isinstance(a_.value, ast.Name) and a_.value.id == head and isinstance(a_.targets[0], ast.Name):
+                line_vars.add(a_.targets[0].id)
+        for a_ in walk_no_nested(lin.node):
+            if isinstance(a_, ast.Assign) and isinstance(a_.targets[0], ast.Name) and a_.targets[0].id in line_vars - {head} \
+                    and isinstance(a_.value, ast.Name) and a_.value.id in (sep, rest):
+                ctx.violation("M4", lin, "prefix-wrong", "the line handed back is %s, not the part before the delimiter" % a_.value.id, node=a_)
+                okk = False
+        if not any(isinstance(y, ast.Name) and y.id in line_vars for r_ in outs for y in ast.walk(r_.value)):
+            ctx.violation("M4", lin, "prefix-wrong", "the part of the buffer before the delimiter (%s) is not what the line reader returns" % head,
+                          node=st)
+            okk = False
+        if okk:
+            ctx.holds("M4", "%s: (line, found, rest) = buffer.partition(CRLF); the buffer keeps `rest` only when `found`" % lin.qualname)
+        return
     if pos_var is None:
         # partition / split idioms
         for n in walk_no_nested(lin.node):
@@ -645,6 +690,18 @@ def check_split(ctx, R, lin):
         ctx.holds("M4", "%s: line = buffer[:pos], buffer = buffer[pos+%d:]" % (lin.qualname, len(delim)))
     elif not any(f.rule == "M4" and f.key == "rest-offset" for f in ctx.findings):
         raise AnalysisError("M4", "line reader: prefix/rest slicing idiom not recognised")
+
+
+def partition_idiom(ctx, R, lin):
+    """`head, sep, rest = <buffer>.partition(CRLF)` in the line reader -> (statement, head, sep, rest) or None."""
+    for n in walk_no_nested(lin.node):
+        if isinstance(n, ast.Assign) and len(n.targets) == 1 and isinstance(n.targets[0], ast.Tuple) and len(n.targets[0].elts) == 3 \
+                and all(isinstance(t, ast.Name) for t in n.targets[0].elts) and isinstance(n.value, ast.Call) \
+                and isinstance(n.value.func, ast.Attribute) and n.value.func.attr == "partition" and len(n.value.args) == 1 \
+                and isinstance(n.value.func.value, ast.Attribute) and mangle(R.cls.name, n.value.func.value.attr) == R.buffer_attr \
+                and const_value(ctx.program, lin, n.value.args[0]) == b"\r\n":
+            return (n,) + tuple(t.id for t in n.targets[0].elts)
+    return None
 
 
 def offset_from(ctx, f, e, var):
